@@ -1,17 +1,17 @@
 SPECIFICATION Spec
 CONSTANTS
   Kind = "provider"
-  Starts <- StartsAll
-  Certs <- BoolBoth
-  Tmpls <- TmplPlain
+  Starts <- StartsUp
+  Certs <- BoolT
+  Tmpls <- TmplBoth
   Drc0 <- DrcNamed
-  EnvKinds <- EnvSeq
+  EnvKinds <- EnvMid
   Interf <- InterfDeps
-  MaxEdits = 2
+  MaxEdits = 1
   MaxFaults = 1
   MaxRecs = 2
-  MaxNest = 0
-  MidEnv = FALSE
+  MaxNest = 1
+  MidEnv = TRUE
   GuardInactive = TRUE
   GuardHealth = TRUE
   OwnDelete = FALSE
